@@ -117,7 +117,7 @@ func IterAddressFields(td *TupleDesc, cb func(int, Type)) {
 	for i, typ := range td.Types {
 		switch typ.Enc {
 		case BytesAddrEnc, StringAddrEnc,
-			JSONAddrEnc, CommitAddrEnc, GeomAddrEnc:
+			JSONAddrEnc, CommitAddrEnc, GeomAddrEnc, ExtendedAddrEnc:
 			cb(i, typ)
 		}
 	}
